@@ -65,6 +65,117 @@ func rangeElemOf(v ssa.Value, l *loop) (ssa.Value, bool) {
 	return ia.X, true
 }
 
+// indexedFill: the other spelling of the output loop: out := make([]string, len(sorted)) and one store
+// out[i] = sorted[i].String() per iteration of a loop whose index runs over 0..len(sorted)-1
+func indexedFill(fn *ssa.Function, out *loop, sorted ssa.Value, sortCall *ssa.Call) bool {
+	lenOf := func(v ssa.Value) ssa.Value {
+		c, ok := v.(*ssa.Call)
+		if !ok {
+			return nil
+		}
+		if b, ok := c.Call.Value.(*ssa.Builtin); ok && b.Name() == "len" && len(c.Call.Args) == 1 {
+			return c.Call.Args[0]
+		}
+		return nil
+	}
+	for _, b := range fn.Blocks {
+		ret, isRet := b.Instrs[len(b.Instrs)-1].(*ssa.Return)
+		if !isRet || len(ret.Results) != 2 || !isNilConst(ret.Results[1]) {
+			continue
+		}
+		ms, isMS := ret.Results[0].(*ssa.MakeSlice)
+		if !isMS || lenOf(ms.Len) != sorted {
+			return false
+		}
+		var stores []*ssa.Store
+		for _, ref := range *ms.Referrers() {
+			switch x := ref.(type) {
+			case *ssa.IndexAddr:
+				for _, r2 := range *x.Referrers() {
+					st, ok := r2.(*ssa.Store)
+					if !ok || st.Addr != ssa.Value(x) {
+						return false
+					}
+					stores = append(stores, st)
+				}
+			case *ssa.Return, *ssa.DebugRef:
+			default:
+				return false
+			}
+		}
+		if len(stores) != 1 || !out.body[stores[0].Block()] || len(out.backs) != 1 || !sortCall.Block().Dominates(out.header) {
+			return false
+		}
+		st := stores[0]
+		if !st.Block().Dominates(out.backs[0]) {
+			return false
+		}
+		idx := st.Addr.(*ssa.IndexAddr).Index
+		recv, _, isS := methodCall(st.Val, "String")
+		if !isS {
+			return false
+		}
+		ld, ok := recv.(*ssa.UnOp)
+		if !ok || ld.Op != token.MUL {
+			return false
+		}
+		ia, ok := ld.X.(*ssa.IndexAddr)
+		if !ok || ia.X != sorted || ia.Index != idx {
+			return false
+		}
+		// idx is the loop's induction value: phi(0, phi+1) or phi(-1, idx)+1, guarded by idx < len(sorted)
+		ph, isPhi := idx.(*ssa.Phi)
+		start := int64(0)
+		if !isPhi {
+			bo, ok := idx.(*ssa.BinOp)
+			if !ok || bo.Op != token.ADD {
+				return false
+			}
+			if one, ok := constInt(bo.Y); !ok || one != 1 {
+				return false
+			}
+			ph, isPhi = bo.X.(*ssa.Phi)
+			start = -1
+		}
+		if !isPhi || ph.Block() != out.header {
+			return false
+		}
+		for i, e := range ph.Edges {
+			if out.body[out.header.Preds[i]] {
+				var next ssa.Value = idx
+				if start == 0 {
+					bo, ok := e.(*ssa.BinOp)
+					if !ok || bo.Op != token.ADD || bo.X != ssa.Value(ph) {
+						return false
+					}
+					if one, ok := constInt(bo.Y); !ok || one != 1 {
+						return false
+					}
+					continue
+				}
+				if e != next {
+					return false
+				}
+			} else if c, ok := constInt(e); !ok || c != start {
+				return false
+			}
+		}
+		guard := false
+		for blk := range out.body {
+			iff, ok := blk.Instrs[len(blk.Instrs)-1].(*ssa.If)
+			if !ok {
+				continue
+			}
+			bo, ok := iff.Cond.(*ssa.BinOp)
+			if ok && bo.Op == token.LSS && bo.X == idx && lenOf(bo.Y) == sorted && out.body[blk.Succs[0]] && !out.body[blk.Succs[1]] {
+				guard = true
+			}
+		}
+		return guard
+	}
+	return false
+}
+
 func methodCall(v ssa.Value, name string) (recv ssa.Value, args []ssa.Value, ok bool) {
 	c, isCall := v.(*ssa.Call)
 	if !isCall {
@@ -216,6 +327,9 @@ func ruleSortPipeline(p *Prog, r *Report) {
 		if good && sortCall.Block().Dominates(out.header) {
 			okOut = true
 		}
+	}
+	if !okOut && indexedFill(fn, out, sorted, sortCall) {
+		okOut = true
 	}
 	if okOut {
 		r.Ok("R-SORTFLOW", "cmd.sort: one rendered string per sorted element", p.FnPos(gen), "output[i] = sorted[i].String() for every i, after the sort")
